@@ -55,23 +55,24 @@ type driver struct {
 
 var max256 = new(big.Int).Sub(new(big.Int).Lsh(big.NewInt(1), 256), big.NewInt(1))
 
-func e17(n int64) sdkmath.Int { return sdkmath.NewInt(n).Mul(sdkmath.NewInt(100000000000000000)) }
+// e19: n x 10^19 base units (10 ISLM) - every amount of the fixture is beyond 2^63 base units
+func e19(n int64) sdkmath.Int { return sdkmath.NewInt(n).Mul(sdkmath.NewInt(1000000000000000000)).MulRaw(10) }
 
 func newDriver(tier string) *driver {
 	cp := coinomicstypes.DefaultParams()
 	// validator V2 is operated by account 4 (for withdrawValidatorCommission)
-	w := world.New(world.Options{NumAccounts: 5, NumVals: 2, Coinomics: &cp, Balance: e17(100), ValOperators: map[int]int{1: 4},
+	w := world.New(world.Options{NumAccounts: 5, NumVals: 2, Coinomics: &cp, Balance: e19(100), ValOperators: map[int]int{1: 4},
 		ExtraCoins: sdk.NewCoins(sdk.NewInt64Coin("atest", 1000))})
 	d := &driver{w: w, O: 1, W: 2, Op: 4, tier: tier}
 	d.abis = precomp.Load(w)
 	ctx := w.Ctx()
 	// max supply for coinomics so that rewards accrue
-	w.App.CoinomicsKeeper.SetMaxSupply(ctx, sdk.NewCoin(world.Denom, e17(1000000000)))
+	w.App.CoinomicsKeeper.SetMaxSupply(ctx, sdk.NewCoin(world.Denom, e19(1000000000)))
 	// the owner's pubkey gets stored by a first Cosmos transaction, so that later Cosmos and
 	// Ethereum transactions leave the same account record
 	d.mustDeliver(d.cosmosTx(banktypes.NewMsgSend(w.Addrs[d.O], w.Addrs[d.W], sdk.NewCoins(sdk.NewInt64Coin(world.Denom, 1)))))
-	d.mustDeliver(d.cosmosTx(stakingtypes.NewMsgDelegate(w.Addrs[d.O], w.ValAddr[0], sdk.NewCoin(world.Denom, e17(10)))))
-	d.mustDeliver(d.cosmosTx(stakingtypes.NewMsgDelegate(w.Addrs[d.O], w.ValAddr[1], sdk.NewCoin(world.Denom, e17(3)))))
+	d.mustDeliver(d.cosmosTx(stakingtypes.NewMsgDelegate(w.Addrs[d.O], w.ValAddr[0], sdk.NewCoin(world.Denom, e19(10)))))
+	d.mustDeliver(d.cosmosTx(stakingtypes.NewMsgDelegate(w.Addrs[d.O], w.ValAddr[1], sdk.NewCoin(world.Denom, e19(3)))))
 	d.mustDeliver(d.cosmosTxAs(d.Op, banktypes.NewMsgSend(w.Addrs[d.Op], w.Addrs[d.W], sdk.NewCoins(sdk.NewInt64Coin(world.Denom, 1)))))
 	// a coin-origin token pair so that the bank precompile has something to report
 	if _, err := w.App.Erc20Keeper.RegisterCoin(w.Ctx(), banktypes.Metadata{
@@ -131,12 +132,18 @@ func (d *driver) baseOps(w *world.World, depth int, path []string) []engine.Op {
 		}}
 	}
 	ops := []engine.Op{
-		mk("delegate(V2,5e17)", stakingtypes.NewMsgDelegate(O, v2, sdk.NewCoin(world.Denom, e17(5)))),
-		mk("undelegate(V1,2e17)", stakingtypes.NewMsgUndelegate(O, v1, sdk.NewCoin(world.Denom, e17(2)))),
-		mk("redelegate(V1>V2,1e17)", stakingtypes.NewMsgBeginRedelegate(O, v1, v2, sdk.NewCoin(world.Denom, e17(1)))),
+		mk("delegate(V2,5e19)", stakingtypes.NewMsgDelegate(O, v2, sdk.NewCoin(world.Denom, e19(5)))),
+		mk("undelegate(V1,2e19)", stakingtypes.NewMsgUndelegate(O, v1, sdk.NewCoin(world.Denom, e19(2)))),
+		mk("redelegate(V1>V2,1e19)", stakingtypes.NewMsgBeginRedelegate(O, v1, v2, sdk.NewCoin(world.Denom, e19(1)))),
 		mk("setWithdraw(W)", distrtypes.NewMsgSetWithdrawAddress(O, w.Addrs[d.W])),
 		{Name: "nextblock", Apply: func(w *world.World, p []string, res *engine.Result) string {
 			w.VirtualNextBlock(6*time.Second, nil, nil)
+			return "ok"
+		}},
+		// the block whose time reaches the completion time of the entries created so far: they are
+		// mature but still stored (until this block's end blocker), and still count for every limit
+		{Name: "block(+unbonding time)", Apply: func(w *world.World, p []string, res *engine.Result) string {
+			w.VirtualNextBlock(w.App.StakingKeeper.UnbondingTime(w.Ctx()), nil, nil)
 			return "ok"
 		}},
 		// V2 is jailed and leaves the bonded set at the block boundary: the owner's delegation to it keeps
@@ -225,7 +232,8 @@ func (d *driver) calls() []call {
 		return vv.TokensFromShares(del.Shares).TruncateInt()
 	}
 	amts := func(base sdkmath.Int) map[string]*big.Int {
-		return map[string]*big.Int{"0": big.NewInt(0), "1": big.NewInt(1), "mid": e17(1).BigInt(), "all": base.BigInt(), "all+1": base.AddRaw(1).BigInt(), "2^256-1": max256}
+		return map[string]*big.Int{"0": big.NewInt(0), "1": big.NewInt(1), "mid": e19(1).BigInt(), "all": base.BigInt(), "all+1": base.AddRaw(1).BigInt(), "2^256-1": max256,
+			"2^64+1": new(big.Int).Add(new(big.Int).Lsh(big.NewInt(1), 64), big.NewInt(1))}
 	}
 	keys := func(m map[string]*big.Int) []string {
 		var ks []string
@@ -262,7 +270,7 @@ func (d *driver) calls() []call {
 		out = append(out, c)
 		// cancel unbonding at several creation heights
 		for _, h := range []int64{w.Header.Height, w.Header.Height - 1, 0} {
-			for _, k := range []string{"1", "mid", "2^256-1"} {
+			for _, k := range []string{"1", "mid", "2^64+1", "2^256-1"} {
 				a := amts(bal)[k]
 				c := call{name: fmt.Sprintf("staking.cancelUnbonding(%s,%s,h%+d)", v.name, k, h-w.Header.Height), to: precomp.StakingAddr,
 					data: precomp.MustPack(st, "cancelUnbondingDelegation", oHex, v.s, a, big.NewInt(h))}
@@ -372,14 +380,14 @@ func (d *driver) calls() []call {
 		own := sdk.ValAddress(O).String()
 		cases := []cv{
 			{"ok,1", "0.10", own, fresh, big.NewInt(1), big.NewInt(1)},
-			{"ok,mid", "0.10", own, fresh, big.NewInt(1), e17(1).BigInt()},
+			{"ok,mid", "0.10", own, fresh, big.NewInt(1), e19(1).BigInt()},
 			{"ok,all+1", "0.10", own, fresh, big.NewInt(1), bal.AddRaw(1).BigInt()},
 			{"value0", "0.10", own, fresh, big.NewInt(1), big.NewInt(0)},
-			{"below-minself", "0.10", own, fresh, e17(2).BigInt(), e17(1).BigInt()},
-			{"rate-below-min", "0.01", own, fresh, big.NewInt(1), e17(1).BigInt()},
-			{"rate-above-max", "0.30", own, fresh, big.NewInt(1), e17(1).BigInt()},
-			{"other-operator", "0.10", sdk.ValAddress(w.Addrs[d.W]).String(), fresh, big.NewInt(1), e17(1).BigInt()},
-			{"pubkey-in-use", "0.10", own, usedPk, big.NewInt(1), e17(1).BigInt()},
+			{"below-minself", "0.10", own, fresh, e19(2).BigInt(), e19(1).BigInt()},
+			{"rate-below-min", "0.01", own, fresh, big.NewInt(1), e19(1).BigInt()},
+			{"rate-above-max", "0.30", own, fresh, big.NewInt(1), e19(1).BigInt()},
+			{"other-operator", "0.10", sdk.ValAddress(w.Addrs[d.W]).String(), fresh, big.NewInt(1), e19(1).BigInt()},
+			{"pubkey-in-use", "0.10", own, usedPk, big.NewInt(1), e19(1).BigInt()},
 		}
 		for _, x := range cases {
 			desc := descT{Moniker: "verif", Details: "d"}
@@ -785,10 +793,10 @@ func Run(tier string) int {
 	start := time.Now()
 	res := engine.RunSharded(Prop, tier, 5, Worker)
 	res.TracesImpl = res.Transitions
-	res.Sample(map[string]any{"base_state": []string{"undelegate(V1,2e17)", "nextblock"}, "call": "staking.cancelUnbonding(V1,mid,h-1)"})
+	res.Sample(map[string]any{"base_state": []string{"undelegate(V1,2e19)", "nextblock"}, "call": "staking.cancelUnbonding(V1,mid,h-1)"})
 	return engine.Finish(res, engine.Meta{
 		Property: Prop, Tier: tier, Level: "model_checking", Start: start,
-		Rule:   "base states: all sequences <= depth of {delegate V2, undelegate V1, redelegate V1>V2, set withdraw address, block boundary, V2 jailed and out of the bonded set, V1 slashed for the previous block, MaxEntries lowered to 1, token-pair conversion toggled} with digest dedup; in each, every staking / distribution / ICS-20 tx method (incl. createValidator and withdrawValidatorCommission by a validator operator) x argument grid as fork differential (eth tx to the precompile vs Cosmos tx with the native message, both through DeliverTx) with a diff of ALL persistent stores, plus query methods vs module state and the native querier (validators: 4 statuses x 4 page requests; redelegations: 4 filters); non-trivial = differential in which both sides succeeded",
+		Rule:   "base states: all sequences <= depth of {delegate V2, undelegate V1, redelegate V1>V2, set withdraw address, block boundary, a block reaching the completion time of the entries created so far, V2 jailed and out of the bonded set, V1 slashed for the previous block, MaxEntries lowered to 1, token-pair conversion toggled}; all amounts beyond 2^63 base units with digest dedup; in each, every staking / distribution / ICS-20 tx method (incl. createValidator and withdrawValidatorCommission by a validator operator) x argument grid as fork differential (eth tx to the precompile vs Cosmos tx with the native message, both through DeliverTx) with a diff of ALL persistent stores, plus query methods vs module state and the native querier (validators: 4 statuses x 4 page requests; redelegations: 4 filters); non-trivial = differential in which both sides succeeded",
 		Bounds: map[string]any{"base_depth": bounds(tier)},
 		Assumptions: []string{
 			"gas price 0 so that fees do not enter the comparison ('balances apart from gas')",
